@@ -3,6 +3,7 @@ package props
 import (
 	"fmt"
 	"math/rand/v2"
+	"os"
 	"strings"
 
 	"github.com/gdamore/tcell/v2"
@@ -15,7 +16,7 @@ func init() { register("C08", C08) }
 
 var rwCond = func() *runewidth.Condition {
 	c := runewidth.NewCondition()
-	c.EastAsianWidth = false
+	c.EastAsianWidth = os.Getenv("RUNEWIDTH_EASTASIAN") == "1"
 	return c
 }()
 
